@@ -381,3 +381,167 @@ def show_items(items):
         else:
             out.append("?%s" % (v[1:],))
     return " ".join(out)
+
+
+# ------------------------------------------------------------------------------------ template database (cached per tree)
+
+ROOTS = [("parse_expression", 3), ("parse_expression_inner", 3), ("parse_turnary_expression", 3), ("parse_match_expression", 3),
+         ("parse_match_pattern", 3), ("parse_conditional_or", 3), ("parse_conditional_and", 3), ("parse_relation", 3),
+         ("parse_addition", 3), ("parse_multiplication", 3), ("parse_unary", 3), ("parse_not_list", 3), ("parse_neg_list", 3),
+         ("parse_member", 2), ("parse_primary", 3)]
+
+
+def find_block(v, depth=0):
+    """a nested code block (resolved or collected) inside an operand value, else None"""
+    if depth > 8 or not isinstance(v, tuple) or not v:
+        return None
+    if v[0] in ("cbc-resolved", "cbc"):
+        return v
+    if v[0] in ("adt",) and v[3]:
+        for x in v[3]:
+            r = find_block(x, depth + 1)
+            if r is not None:
+                return r
+    if v[0] == "call":
+        for x in v[2]:
+            r = find_block(x, depth + 1)
+            if r is not None:
+                return r
+    return None
+
+
+def item_json(x):
+    v = item_view(x)
+    k = v[0]
+    if k == "op":
+        out = {"k": "op", "name": v[1], "args": [render(o)[:200] for o in v[2]]}
+        for o in v[2]:
+            b = find_block(o)
+            if b is not None:
+                out["nested"] = [item_json(as_codepoint(y)) for y in b[1]]
+                out["nested_kind"] = b[0]
+        return out
+    if k == "code":
+        return {"k": "code", "child": v[1]}
+    if k == "jmp":
+        return {"k": "jmp", "label": v[1]}
+    if k == "jmpcond":
+        return {"k": "jmpcond", "when": v[1], "label": v[2]}
+    if k == "label":
+        return {"k": "label", "label": v[1]}
+    if k == "block":
+        return {"k": "block", "items": [item_json(as_codepoint(y)) for y in v[1]]}
+    if k == "rawjmp":
+        return {"k": "rawjmp", "name": v[1], "args": list(v[2])}
+    return {"k": "unknown", "text": str(v[1])[:200]}
+
+
+def val_json(v, st, depth=0):
+    """structured JSON of a value (AST nodes): pointers are resolved through the path's heap"""
+    if depth > 14:
+        return "..."
+    k = v[0]
+    if k == "u":
+        return {"u": v[1]}
+    if k == "i":
+        return v[1]
+    if k == "s":
+        return v[1]
+    if k == "unit":
+        return None
+    if k == "adt":
+        if v[1].endswith("boxed::Box") and v[3]:
+            # Box<T>: show the pointee
+            p = None
+            stack = [v]
+            while stack and p is None:
+                y = stack.pop()
+                if y[0] == "ptr":
+                    p = y
+                elif y[0] == "adt" and y[3]:
+                    stack.extend(y[3])
+            if p is not None:
+                return {"box": val_json(st.heap.get(p[1], U("heap")), st, depth + 1)}
+        return {"adt": v[1].split("::")[-1], "variant": v[2], "fields": None if v[3] is None else [val_json(x, st, depth + 1) for x in v[3]], "origin": v[4]}
+    if k == "tup":
+        return {"tup": [val_json(x, st, depth + 1) for x in v[1]]}
+    if k == "seq":
+        return {"seq": [val_json(x, st, depth + 1) for x in v[1]]}
+    if k == "call":
+        return {"call": v[1], "args": [val_json(x, st, depth + 1) for x in v[2]]}
+    if k == "pj":
+        return {"pj": val_json(v[1], st, depth + 1), "e": str(v[2])}
+    if k == "ptr":
+        return {"box": val_json(st.heap.get(v[1], U("heap")), st, depth + 1)}
+    if k == "lref":
+        return {"ref": render(v)}
+    if k == "splice":
+        return {"splice": v[1]}
+    return {"?": render(v)[:120]}
+
+
+def path_json(root, r):
+    parses = [(e[1], e[2]) for e in r.trace if e[0] == "parse"]
+    d = {"root": root, "kind": r.kind, "details": sorted(r.details), "parses": parses,
+         "cond": [list(map(lambda z: list(z) if isinstance(z, tuple) else z, c)) for c in r.cond],
+         "toks": [(e[1], e[2]) for e in r.trace if e[0] == "tok"],
+         "labels": sum(1 for e in r.trace if e[0] == "label"),
+         "trace": [[e[0], e[1], e[2] if len(e) > 2 else None] for e in r.trace if e[0] in ("parse", "tok", "label")]}
+    if r.kind == "code":
+        d["items"] = [item_json(x) for x in r.items]
+        d["text"] = show_items(r.items)
+    elif r.kind == "child":
+        d["child"] = r.fold
+        d["text"] = "CHILD %d" % r.fold
+    else:
+        d["fold"] = render(r.fold)
+        d["fold_json"] = val_json(r.fold, r.state)
+        d["text"] = "%s %s" % (r.kind.upper(), render(r.fold)[:300])
+    d["ast"] = val_json(r.ast, r.state) if r.ast is not None else None
+    return d
+
+
+def _one(args):
+    F, m, lim = args
+    try:
+        res, it = analyse(F, m, lim)
+        return m, [path_json(m, r) for r in res], dict(it.unhandled.most_common(60)), None
+    except symex.TooManyPaths as e:
+        return m, [], {}, "too many paths: %s" % e
+    except Exception as e:   # fail closed, report the construct
+        import traceback
+        return m, [], {}, "symbolic execution failed: %s\n%s" % (e, traceback.format_exc()[-1500:])
+
+
+_F = None
+
+
+def _worker(a):
+    return _one((_F, a[0], a[1]))
+
+
+def build_db(F, force=False):
+    """templates of all parse functions, cached next to the facts (keyed by the analyser's own source)"""
+    import hashlib, json, os, multiprocessing
+    here = os.path.dirname(os.path.abspath(__file__))
+    h = hashlib.sha256()
+    for fn in ("symex.py", "ctemplates.py"):
+        h.update(open(os.path.join(here, fn), "rb").read())
+    cache = os.path.join(F.dir, "templates.%s.json" % h.hexdigest()[:12])
+    if os.path.exists(cache) and not force:
+        return json.load(open(cache))
+    global _F
+    _F = F
+    ctx = multiprocessing.get_context("fork")
+    with ctx.Pool(min(8, len(ROOTS))) as pool:
+        outs = pool.map(_worker, ROOTS)
+    db = {"roots": {}, "errors": {}, "unhandled": {}}
+    for m, paths, unh, errx in outs:
+        db["roots"][m] = paths
+        db["unhandled"][m] = unh
+        if errx:
+            db["errors"][m] = errx
+    tmp = cache + ".tmp%d" % os.getpid()
+    json.dump(db, open(tmp, "w"))
+    os.replace(tmp, cache)
+    return db
